@@ -1,22 +1,36 @@
 (* Props/C15.v — Each scheduled job gets its own existing working directories.
    Model: JobDirs/Model.v on top of the C21 registry model.  [fresh] is utils.random_name (uuid4), assumed
    injective.  PARTIAL with respect to the text: the file system is an abstract set of directories (the real
-   mkdir is only exercised by the correspondence, on the local location); symbolic-link work directories and
-   shell-based remote locations are not modelled. *)
+   mkdir is only exercised by the correspondence: local location and shell-backed nodes); symbolic-link work
+   directories are not modelled.  ASSUMPTION named here because the code relies on it silently:
+   _set_job_directories replaces the three directories by resolve() evaluated on the FIRST allocated location only
+   and _schedule then registers that one string on ALL locations - "the real path of a job directory is the same on
+   every allocated location" (true in the model and the harness, where realpath = directory everywhere). *)
 From Coq Require Import List Bool Arith.
 From SF Require Import Base.Str Base.Corr DataReg.Model DataReg.Rereg JobDirs.Model JobDirs.Proofs.
 Import ListNotations.
 Local Open Scope string_scope. Local Open Scope list_scope.
 
-(* directories that the step does not fix are distinct for distinct (job, role): two jobs never share one, for
-   any number of jobs *)
+(* directories that the step does not fix are distinct for distinct (job, role), also across targets with
+   different work directories, for any number of jobs.  The content of this theorem is small and should be read
+   for what it is: job_dir = workdir ++ [fresh (3k + role)], so distinctness IS the injectivity of [fresh]
+   (uuid4, an assumption) transported through the path construction and the role numbering. *)
 Theorem C15_distinct_unless_fixed : forall fresh : nat -> string,
   (forall a b, fresh a = fresh b -> a = b) ->
-  forall w f1 f2 k1 k2 r1 r2,
+  forall w1 w2 f1 f2 k1 k2 r1 r2,
     fixed_of f1 r1 = None -> fixed_of f2 r2 = None ->
-    job_dir fresh w f1 k1 r1 = job_dir fresh w f2 k2 r2 -> k1 = k2 /\ r1 = r2.
+    job_dir fresh w1 f1 k1 r1 = job_dir fresh w2 f2 k2 r2 -> w1 = w2 /\ k1 = k2 /\ r1 = r2.
 Proof. exact job_dir_distinct. Qed.
-(* a fixed directory is used verbatim *)
+(* a drawn directory never coincides with another job's FIXED directory that lies outside the drawing job's work
+   directory (no hypothesis on [fresh]).  A fixed directory placed directly under the work directory can coincide
+   with a drawn one only by guessing the uuid; that case is not excluded by any theorem. *)
+Theorem C15_drawn_differs_from_fixed : forall fresh w1 w2 f1 f2 k1 k2 r1 r2 d,
+  fixed_of f1 r1 = None -> fixed_of f2 r2 = Some d -> beneath w1 d = false ->
+  job_dir fresh w1 f1 k1 r1 <> job_dir fresh w2 f2 k2 r2.
+Proof. exact job_dir_vs_fixed. Qed.
+(* a fixed directory is used verbatim.  [Some d] stands for a NON-EMPTY directory string: _get_directory is
+   `directory or join(workdir, random_name())`, so a fixed "" is falsy and a name is drawn; the harness maps both
+   None and "" to the model's None (and exercises ""), so [Some] never stands for the empty string. *)
 Theorem C15_fixed_verbatim : forall fresh w f k r d, fixed_of f r = Some d -> job_dir fresh w f k r = d.
 Proof. exact job_dir_fixed. Qed.
 
@@ -53,6 +67,7 @@ Proof. vm_compute. reflexivity. Qed.
 
 Print Assumptions C15_distinct_unless_fixed.
 Print Assumptions C15_fixed_verbatim.
+Print Assumptions C15_drawn_differs_from_fixed.
 Print Assumptions C15_exists_partial.
 Print Assumptions C15_exists_stays_partial.
 Print Assumptions C15_registered.
